@@ -68,7 +68,12 @@ def d1(chk, prog):
     public = [f for n, f in m.functions.items() if not n.startswith("_") and n not in ("on_array", "on_weighted_array")]
     unknown = [f.name for f in public if f.name not in LOCATION and f.name not in SCALE]
     if unknown:
-        raise AnalysisError(f"C19-D1: estimator(s) {unknown} in descriptives.py are not in the location / scale role table; classify them first")
+        # the property names its estimators; another public function living in (or moved into) descriptives.py is not one of them
+        chk.note(f"public function(s) {unknown} in descriptives.py are none of the estimators the property names: not classified")
+    public = [f for f in public if f.name not in unknown]
+    gone = sorted((set(LOCATION) | set(SCALE)) - {f.name for f in public})
+    if gone:
+        raise AnalysisError(f"C19-D1: anchor vanished: estimator(s) {gone} of the property are no longer defined in descriptives.py")
     chk.floor("estimators in descriptives.py", len(public), 11)
     for f in public:
         decs = decorator_of(f)
